@@ -671,7 +671,8 @@ pub fn generate_proof(
     // If in debug mode, we measure and later print time take to compute witness
     #[cfg(test)]
     let now = Instant::now();
-    let full_assignment = calculate_rln_witness(inputs, graph_data);
+    let full_assignment =
+        calculate_rln_witness(inputs, graph_data).map_err(ProofError::WitnessError)?;
 
     #[cfg(test)]
     println!("witness generation took: {:.2?}", now.elapsed());
